@@ -36,8 +36,10 @@ package server
 
 import (
 	"encoding/json"
+	"errors"
 	"fmt"
 	"math/rand"
+	"net"
 	"sort"
 	"testing"
 	"time"
@@ -599,6 +601,22 @@ func vfC07RunCase(t *testing.T, k *vfKit, sc *vfC07Script, stackBuf []byte, trac
 	idle := vfC07CheckTiming(k, w, ix, sc.Timeout, report)
 	k.Count("ev_events_logged", int64(len(w.evs)))
 	k.Count("snapshots_skipped_busy", int64(w.snapSkipped))
+	// non-vacuity: replies that reached the client although their session was closed between the
+	// moment the remote sent them and the hand-over (reply loop stalled across the close)
+	injectSeq := map[int]int{}
+	for _, e := range w.evs {
+		if e.Kind == "inject" && e.No > 0 {
+			injectSeq[e.No] = e.Seq
+		}
+		if e.Kind == "send" && e.Err == "" && e.No > 0 {
+			for _, x := range ix.Exits[e.Sid] {
+				if is, ok := injectSeq[e.No]; ok && x.StartSeq > is && x.EndSeq < e.Seq {
+					k.Count("ev_replies_handed_over_after_session_close", 1)
+					break
+				}
+			}
+		}
+	}
 	replies, sweptAtEnd := 0, 0
 	for _, e := range w.evs {
 		switch {
@@ -987,3 +1005,202 @@ func TestVerifC07WriteGate(t *testing.T) {
 		}
 	}
 }
+
+// TestVerifC07BufReuse: a session is closed from OUTSIDE its reply loop (by the sweeper) exactly
+// while that loop sits between a completed socket read and the hand-over of the reply to the
+// client; then new sessions are created (1, 3 or 140 of them -- more than any plausible pool of
+// recycled resources holds) and each reads a reply of its own; finally the stalled loop continues.
+// The stall is a gate in the fakes: either SendMessage parks at entry, before it looks at the
+// message, or ReadFrom parks after it copied the packet into the caller's buffer.
+// Oracle (vfC07CheckCommon, nothing new): every reply datagram the client-side IO sees carries
+// the session ID of the socket that produced exactly those bytes (reply payloads are unique per
+// socket) -- never another session's bytes, never another session's ID. The C07 job runs under the
+// race detector: a buffer used by two sessions' goroutines is also a data race in udp.go.
+func TestVerifC07BufReuse(t *testing.T) {
+	k := vfNewKit(t, "C07", "udp-bufreuse")
+	defer k.Finish()
+	stackBuf := make([]byte, 4<<20)
+	traces := map[string]bool{}
+	i := 0
+	reps := k.N(1, 4)
+	for rep := 0; rep < reps; rep++ {
+		for _, gate := range []string{"send", "read"} {
+			for _, tm := range []int64{100 * vfC07Ms, 300 * vfC07Ms} {
+				for _, fresh := range []int{1, 3, 140} {
+					for _, stalled := range []int{1, 3} { // how many sessions are caught in the window
+						i++
+						caseID := fmt.Sprintf("br-%d", i)
+						if rc := k.ReplayCase(); rc != "" && rc != caseID {
+							continue
+						}
+						r := k.Rand(caseID)
+						sc := &vfC07Script{CaseID: caseID, Timeout: tm, Roles: map[string]string{}, Plan: &vfC07Plan{NoDelays: true}}
+						g := &vfC07Gen{r: r, sc: sc, tm: tm}
+						p := sc.Plan
+						t0 := int64(100+r.Intn(600)) * vfC07Ms
+						var stalledSids []uint32
+						for a := 0; a < stalled; a++ {
+							sid := uint32(60000 + i*8 + a)
+							stalledSids = append(stalledSids, sid)
+							sc.Sids = append(sc.Sids, sid)
+							sc.Roles[fmt.Sprint(sid)] = "reply loop stalled at the " + gate + " gate, closed by the sweeper meanwhile"
+							g.msg(t0, sid, 0, 64, "opens the session")
+							g.op(t0+5*vfC07Ms, "reply", sid, 200+a, "first reply, passes")
+							// the second reply is the one in hand when the session is closed
+							if gate == "send" {
+								p.setB(&p.SendGate, sid, 1)
+							} else {
+								p.setB(&p.ReadGate, sid, 1)
+							}
+							g.op(t0+10*vfC07Ms, "reply", sid, 300+a, "reply in hand while the session is closed")
+						}
+						// the sweeper closes the stalled sessions at the first sweep after their idle timeout
+						closed := vfC07FirstGridAfter(t0+10*vfC07Ms+tm) + vfC07Grid
+						t1 := closed + 10*vfC07Ms
+						for f := 0; f < fresh; f++ {
+							sid := uint32(70000 + i*256 + f)
+							sc.Sids = append(sc.Sids, sid)
+							g.msg(t1, sid, 0, 40, "new session after the close")
+							g.op(t1+2*vfC07Ms, "reply", sid, 100+f%50, "new session reads a reply of its own")
+						}
+						open := t1 + 10*vfC07Ms
+						for _, sid := range stalledSids {
+							sc.Steps = append(sc.Steps, vfC07Step{At: open, Op: "opengate", Sid: sid, Note: "the stalled reply loop continues"})
+						}
+						for f := 0; f < fresh && f < 5; f++ {
+							g.op(open+5*vfC07Ms, "reply", uint32(70000+i*256+f), 60+f, "new sessions keep talking")
+						}
+						sc.EndAt = open + 20*vfC07Ms
+						if r.Intn(2) == 0 {
+							sc.EndAt = vfC07FirstGridAfter(open+tm) + 1200*vfC07Ms
+						}
+						sc.Steps = append(sc.Steps, vfC07Step{At: sc.EndAt, Op: "snap"})
+						sort.SliceStable(sc.Steps, func(a, b int) bool { return sc.Steps[a].At < sc.Steps[b].At })
+						vfC07RunCase(t, k, sc, stackBuf, traces)
+					}
+				}
+			}
+		}
+	}
+	if k.Counter("ev_replies_handed_over_after_session_close") == 0 && k.ReplayCase() == "" {
+		k.Inconclusive("no reply loop was ever stalled across the close of its session")
+	}
+}
+
+// ---- real udpIOImpl between the session manager and the fakes
+
+// vfC07RealIO is the udpIO handed to the session manager in TestVerifC07RealIO: datagrams come
+// from / go to the fake world, but Hook, UDP and CheckUDP are the REAL udpIOImpl methods of
+// server.go, configured with an Outbound and a RequestHook that end in the fake world.
+type vfC07RealIO struct {
+	w    *vfC07World
+	impl *udpIOImpl
+}
+
+func (r *vfC07RealIO) ReceiveMessage() (*protocol.UDPMessage, error) { return r.w.ReceiveMessage() }
+func (r *vfC07RealIO) SendMessage(b []byte, m *protocol.UDPMessage) error {
+	return r.w.SendMessage(b, m)
+}
+func (r *vfC07RealIO) Hook(data []byte, reqAddr *string) error { return r.impl.Hook(data, reqAddr) }
+func (r *vfC07RealIO) UDP(reqAddr string) (UDPConn, error)     { return r.impl.UDP(reqAddr) }
+func (r *vfC07RealIO) CheckUDP(reqAddr string) error           { return r.impl.CheckUDP(reqAddr) }
+
+type vfC07Outbound struct{ w *vfC07World }
+
+func (o *vfC07Outbound) TCP(reqAddr string) (net.Conn, error) {
+	return nil, errors.New("vf: tcp not used")
+}
+func (o *vfC07Outbound) UDP(reqAddr string) (UDPConn, error) { return o.w.UDP(reqAddr) }
+func (o *vfC07Outbound) CheckUDP(reqAddr string) error       { return o.w.CheckUDP(reqAddr) }
+
+type vfC07ReqHook struct{ w *vfC07World }
+
+func (h *vfC07ReqHook) Check(isUDP bool, reqAddr string) bool { return isUDP }
+func (h *vfC07ReqHook) TCP(stream HyStream, reqAddr *string) ([]byte, error) {
+	return nil, errors.New("vf: tcp not used")
+}
+func (h *vfC07ReqHook) UDP(data []byte, reqAddr *string) error { return h.w.Hook(data, reqAddr) }
+
+func vfC07WrapReal(w *vfC07World) udpIO {
+	return &vfC07RealIO{w: w, impl: &udpIOImpl{AuthID: "vf", RequestHook: &vfC07ReqHook{w}, Outbound: &vfC07Outbound{w}}}
+}
+
+// TestVerifC07RealIO: outbound dials that take a long time on the virtual clock (1 s, 9.999 s,
+// 10 s, 10.001 s, 12 s, 40 s) and then succeed or fail, through the real udpIOImpl.UDP. The
+// idle timeout is 2 min, so the sweeper never wants the lock the dial is made under. Whatever the
+// implementation does with a slow dial, at the end every socket the outbound EVER returned must
+// have been closed exactly once (socket census), plus all the other oracles.
+func TestVerifC07RealIO(t *testing.T) {
+	k := vfNewKit(t, "C07", "udp-realio")
+	defer k.Finish()
+	stackBuf := make([]byte, 4<<20)
+	traces := map[string]bool{}
+	i := 0
+	tm := 120 * vfC07Sec
+	for _, dial := range []int64{0, vfC07Sec, 9999 * vfC07Ms, 10 * vfC07Sec, 10001 * vfC07Ms, 12 * vfC07Sec, 40 * vfC07Sec} {
+		for _, ok := range []bool{true, false} {
+			for _, after := range []string{"end-soon", "more", "drain"} {
+				for _, others := range []int{0, 2} {
+					i++
+					caseID := fmt.Sprintf("rio-%d", i)
+					if rc := k.ReplayCase(); rc != "" && rc != caseID {
+						continue
+					}
+					r := k.Rand(caseID)
+					sid := uint32(80000 + i)
+					sc := &vfC07Script{CaseID: caseID, Timeout: tm, Sids: []uint32{sid}, Roles: map[string]string{fmt.Sprint(sid): fmt.Sprintf("dial takes %v, ok=%v", time.Duration(dial), ok)},
+						Plan: &vfC07Plan{NoDelays: true, WrapIO: vfC07WrapReal}}
+					g := &vfC07Gen{r: r, sc: sc, tm: tm}
+					p := sc.Plan
+					if p.DialSleep == nil {
+						p.DialSleep = map[uint32]map[int]int64{}
+					}
+					p.DialSleep[sid] = map[int]int64{0: dial}
+					if !ok {
+						p.setB(&p.DialFail, sid, 0)
+					}
+					if r.Intn(3) == 0 {
+						p.setHook(sid, 0, vfC07HookRewrite)
+					}
+					for o := 0; o < others; o++ {
+						bs := uint32(100 + o)
+						sc.Sids = append(sc.Sids, bs)
+						g.msg(int64(o)*vfC07Ms, bs, 0, 40, "bystander")
+						g.msg(t0RealIO+dial/2, bs, 1, 40, "bystander datagram queued behind the slow dial")
+					}
+					g.msg(t0RealIO, sid, 0, 64, "first datagram: slow outbound dial")
+					t1 := t0RealIO + dial + 50*vfC07Ms
+					switch after {
+					case "more":
+						g.msg(t1, sid, 0, 64, "same id after the dial")
+						g.op(t1+5*vfC07Ms, "reply", sid, 48, "")
+						g.msg(t1+vfC07Sec, sid, 1, 64, "")
+						t1 += vfC07Sec
+					case "drain":
+						g.op(t1, "reply", sid, 48, "")
+						t1 = vfC07FirstGridAfter(t1+tm) + 1500*vfC07Ms
+					}
+					sc.EndAt = t1 + 100*vfC07Ms
+					for _, at := range []int64{t0RealIO + dial + 20*vfC07Ms, sc.EndAt} {
+						sc.Steps = append(sc.Steps, vfC07Step{At: at, Op: "snap"})
+					}
+					sort.SliceStable(sc.Steps, func(a, b int) bool { return sc.Steps[a].At < sc.Steps[b].At })
+					vfC07RunCase(t, k, sc, stackBuf, traces)
+				}
+			}
+		}
+	}
+	// ordinary timelines through the real udpIOImpl as well (no slow dials)
+	n := k.N(40, 600)
+	for j := 0; j < n; j++ {
+		caseID := fmt.Sprintf("riotl-%d", j)
+		if rc := k.ReplayCase(); rc != "" && rc != caseID {
+			continue
+		}
+		sc := vfC07GenScript(k.Rand(caseID), caseID, "")
+		sc.Plan.WrapIO = vfC07WrapReal
+		vfC07RunCase(t, k, sc, stackBuf, traces)
+	}
+}
+
+const t0RealIO = 500 * int64(time.Millisecond)
